@@ -37,6 +37,10 @@ CHECKS = {
                 technique="exhaustive crash-point / fault enumeration over the intercepted file-system effects of the real save path (dry run numbers the effects; every index x {errno class, crash-before, torn write})",
                 text="For each history (fresh/existing/symlinked destination, in-place re-save of a loaded model with multi-chunk streaming, threshold mixes, external source from another file, lazy tensor or callback raising RuntimeError/KeyboardInterrupt/SystemExit/BaseException, sharded saves with neighbours and name collisions) every library-visible file-system effect of ir.save is tried as an injected OSError (per errno class), as process death before the effect (forked child) and, for writes, as a torn write. After an exception: every pre-existing file byte- and mode-identical, no staging file/dir left, external tensors valid and readable, model holds the same tensor objects. After death: every pre-existing data file holds exactly its old bytes or exactly the complete new bytes.",
                 note="POSIX rename atomicity and page-cache survival of process death assumed; effects intercepted at library-call granularity; serial writer (the concurrent failure path is C09)."),
+    "C02": dict(level="exploration", engine="E6-enum", design="4/C02",
+                technique="small-scope exhaustive enumeration of protos (complete leaf families + baseline model with every single and every pair of feature deviations), field-by-field comparison up to the documented normalisations, fixpoint of the second round trip",
+                text="Leaf families are enumerated completely (TensorProto: 25 dtypes x storage fields x dims x doc/metadata/external entries; TypeProto/ValueInfoProto: tensor/sparse/sequence/optional nested to depth 3 x element types x shape variants x denotations at every level; AttributeProto: every kind except sparse x default/non-default payload x doc x reference form) through the dedicated serde functions; composite models are a baseline plus every single and every pair of 22 feature deviations (domains, opset imports, model fields, metadata on every carrier, initializer/input/output aliasing, value-info variants, quantization annotations, all attribute kinds, If bodies capturing values declared before/after use, nested bodies with initializers, functions with attributes/overloads/value-info, unsorted nodes, missing/duplicate node names, storage mixes, nested types, device configurations, optional I/O) over IR versions 3..13. Each proto is round-tripped twice and compared with a path-level diff after a normaliser that implements only the normalisations the property lists.",
+                note="Supported feature set only (no sparse attributes/initializers, map types, training_info, segments); the normaliser is part of the trusted base."),
 }
 
 NOT_YET = {}
@@ -78,7 +82,7 @@ def main():
              "kind_free_text": "explicit-state BFS over the real transition function; states are histories replayed on fresh real objects; dedup on canonical public snapshot"},
             {"name": "E1-seq", "path": "mc/props/c11.py", "serves_properties": ["C11"],
              "kind_free_text": "stateless enumeration of all event sequences up to a depth with trace monitors"},
-            {"name": "E6-enum", "path": "mc/props/", "serves_properties": ["C04", "C12", "C16"],
+            {"name": "E6-enum", "path": "mc/props/", "serves_properties": ["C02", "C04", "C12", "C16"],
              "kind_free_text": "small-scope exhaustive input/structure enumeration with independent reference oracles"},
             {"name": "E5-fsfault", "path": "mc/fsfault.py", "serves_properties": ["C08"],
              "kind_free_text": "file-system effect interception + exhaustive fault/crash/torn-write plans"},
